@@ -185,28 +185,39 @@ def grep_audit():
     return hits
 
 
-def axiom_audit(prop, theorems):
-    """Runs `#print axioms` on every property theorem. Returns (dict name->axioms, problems)."""
+def axiom_audit(prop, theorems=None):
+    """Enumerates, inside Lean, every theorem declared in module Robust.Props.<prop> (any
+    namespace nesting, private ones included) and collects the axioms each depends on.
+    Returns (dict name->axioms, problems)."""
     d = workdir("audit-" + prop)
     f = os.path.join(d, "Audit.lean")
     with open(f, "w") as fh:
-        fh.write("import Robust.Props.%s\n" % prop)
-        for t in theorems:
-            fh.write("#print axioms %s\n" % t)
+        fh.write("""import Lean
+import Robust.Props.%s
+open Lean Elab Command
+run_cmd do
+  let env ← getEnv
+  let some idx := env.getModuleIdx? `Robust.Props.%s | throwError "module not found"
+  let names := env.header.moduleData[idx.toNat]!.constNames
+  for n in names do
+    if let some (.thmInfo _) := env.find? n then
+      if !n.isInternalDetail then
+        let axs ← Lean.collectAxioms n
+        logInfo m!"AXIOMS {n} : {axs.toList}"
+""" % (prop, prop))
     rc, out, _ = sh(["lake", "env", "lean", f], cwd=LEAN)
     shutil.rmtree(d, ignore_errors=True)
     res, problems = {}, []
-    for m in re.finditer(r"'([^']+)' (does not depend on any axioms|depends on axioms: \[([^\]]*)\])", out):
-        axs = [a.strip() for a in (m.group(3) or "").split(",") if a.strip()]
+    for m in re.finditer(r"AXIOMS (\S+) : \[([^\]]*)\]", out):
+        axs = [a.strip() for a in m.group(2).split(",") if a.strip()]
         res[m.group(1)] = axs
         bad = [a for a in axs if a not in ALLOWED_AXIOMS]
         if bad:
             problems.append("%s depends on %s" % (m.group(1), bad))
-    for t in theorems:
-        if t not in res:
-            problems.append("no axiom report for %s" % t)
     if rc != 0:
         problems.append("audit file failed to elaborate: " + out[-500:])
+    if not res:
+        problems.append("no theorems found in Robust.Props.%s" % prop)
     return res, problems
 
 
@@ -340,15 +351,11 @@ class Run:
         mods = ["Robust.Props." + self.prop] + list(extra_modules)
         okb, outb = lake_build(mods + ["driver"])
         self.build_log = outb
-        try:
-            names = prop_theorems(self.prop)
-        except OSError:
-            names = []
         if okb:
-            for n in names:
+            axs, problems = axiom_audit(self.prop)
+            for n in sorted(axs):
                 self.obligation("theorem " + n, True)
-            axs, problems = axiom_audit(self.prop, names)
-            self.obligation("axiom audit (%d theorems)" % len(names), not problems, "; ".join(problems))
+            self.obligation("axiom audit (%d theorems, axioms ⊆ {propext, Classical.choice, Quot.sound})" % len(axs), not problems, "; ".join(problems))
             self.axioms = axs
         else:
             failed = sorted(set(re.findall(r"^error: (\S+?\.lean):(\d+)", outb, re.M)))
